@@ -216,8 +216,19 @@ Record file_ok (ho : option host) (segs : list (list N)) (last : list N) (q f : 
   fk_first : match segs with [] => True | s :: _ => s <> [] end;
   fk_q : opt_clean T_SPECIAL_QUERY q;
   fk_f : opt_clean T_FRAGMENT f;
-  fk_b : nlen (file_ser ho (path_text segs last) q f) <= U32_MAX_P
+  fk_b1 : nlen (file_front ho) <= U32_MAX_P;
+  fk_bq : opt_le (qf_qs (nlen (file_pre ho (path_text segs last))) q) U32_MAX_P;
+  fk_bf : opt_le (qf_fs (nlen (file_pre ho (path_text segs last))) q f) U32_MAX_P
 }.
+
+(* the three offset bounds follow from a bound on the whole serialization *)
+Lemma file_bounds_of_len ho T q f : nlen (file_ser ho T q f) <= U32_MAX_P ->
+  nlen (file_front ho) <= U32_MAX_P /\ opt_le (qf_qs (nlen (file_pre ho T)) q) U32_MAX_P
+  /\ opt_le (qf_fs (nlen (file_pre ho T)) q f) U32_MAX_P.
+Proof.
+  intros Kb. destruct (qf_bounds (file_pre ho T) q f _ Kb) as [Bq Bf]. split; [|split; assumption].
+  unfold file_ser, file_pre in Kb. rewrite !nlen_app in Kb. lia.
+Qed.
 
 Lemma fhost_plain ho : fhost_ok ho -> forallb (plainc true) (fhost_text ho) = true /\ is_wdl (fhost_text ho) = false
   /\ forallb above_space (fhost_text ho) = true.
@@ -312,7 +323,7 @@ Theorem reparse_file_form ho segs last q f : file_ok ho segs last q f ->
   parse_url dbg hp hpo hd None None (file_ser ho (path_text segs last) q f)
   = POk (file_curl ho (path_text segs last) q f).
 Proof.
-  intros K. destruct K as [Kh Ksegs Klast Kfirst Kq Kf Kb].
+  intros K. destruct K as [Kh Ksegs Klast Kfirst Kq Kf Bfront Bq Bf].
   set (T := path_text segs last) in *. set (body := segs_text segs ++ last).
   assert (T = 47 :: body) as ET by reflexivity.
   destruct (fhost_plain ho Kh) as (Hplain & Hnw & Habove).
@@ -325,9 +336,6 @@ Proof.
   { apply all_above_edge. rewrite Eser. rewrite forallb_app. apply andb_true_iff. split; [reflexivity|].
     cbn [forallb]. rewrite !forallb_app. rewrite Habove, (sqf_text_above q f Kq Kf). rewrite ET. cbn [forallb].
     rewrite Hbody. reflexivity. }
-  assert (nlen (file_front ho) <= U32_MAX_P /\ nlen (file_pre ho T) <= U32_MAX_P) as [Bfront Bpre].
-  { unfold file_ser, file_pre in Kb. rewrite !nlen_app in Kb. unfold file_pre. rewrite nlen_app. lia. }
-  destruct (qf_bounds (file_pre ho T) q f _ Kb) as [Bq Bf].
   assert (path_head (T ++ qf_text q f)) as HXT by (rewrite ET; split; reflexivity).
   unfold parse_url. rewrite trim_c0_id by exact He. rewrite Eser.
   rewrite parse_scheme_canon by reflexivity.
